@@ -219,3 +219,51 @@ Theorem C02_core_and_cut_instance :
                    Proofs.CoreKeptDeepCut.DeepCutExample.input Proofs.CoreKeptDeepCut.DeepCutExample.pretext = Ok rs).
 Proof. exact Proofs.CoreKeptDeepCut.DeepCutExample.hyps. Qed.
 Print Assumptions C02_core_and_cut_instance.
+
+(* ========================================================================
+   THE FIRST CLAUSE: "for every edit script PretextView can produce remapping
+   completes without error".  Maps that TILE every scaffold they show: the
+   baits naming one input scaffold, in ascending order, cover 1..E without hole
+   or overlap and -- when the scaffold is shown in more than one piece -- every
+   piece is at least two texels long; the pieces in ANY order, orientation and
+   grouping into Pretext scaffolds; any subset of scaffolds absent; texel size
+   n/d >= 1 bp; untagged baits; input with distinct scaffold names, distinct
+   contigs, every row >= 1 bp, scaffolds beginning and ending with a contig,
+   contigs on strand +1, -1 or 0 and untagged.  Then remap_to_input returns Ok:
+   no lookup fails, the "while multi" loop ends, every contig shared by several
+   pieces is cut into abutting parts that pass the QC, and re-adding what no
+   bait found succeeds.  With C02_core_kept, C02_deep_cut_exact and the C18
+   pipeline invariant this is the property's statement for the remapping stage
+   of every PretextView-model edit script (the two-texel hypothesis is used: with
+   pieces of one texel about 3% of generated scripts end in the QC error). *)
+From Tola Require Proofs.Completion.
+Theorem C02_completion : forall g prefix n d input pretext,
+  0 < d -> d <= n ->
+  Forall Proofs.Completion.input_ok input ->
+  NoDup (map fst input) ->
+  NoDup (map key_of (Model.RemapSpec.in_frags input)) ->
+  Forall (fun f => f_tags f = []) (Model.RemapSpec.in_frags input) ->
+  Forall (fun p => exists b t, snd p = RF b :: t) pretext ->
+  Forall (fun b => f_tags b = [] /\ (f_strand b = 1 \/ f_strand b = -1)
+                   /\ In (f_name b) (map fst input)) (Proofs.CoreKept.baits_of pretext) ->
+  Forall (Proofs.Completion.scaffold_tiled n d (Proofs.CoreKept.baits_of pretext)) input ->
+  exists rs, remap_to_input repaired g prefix (n, d) input pretext = Ok rs.
+Proof. exact Proofs.Completion.completion_of_tiling_maps. Qed.
+Print Assumptions C02_completion.
+
+(* the hypothesis "input contigs untagged" was FORCED BY THE PROOF: without it the
+   statement is false -- a tagged input contig that no bait finds (here: 1 bp beyond
+   the last texel, carrying two chromosome-name tags) makes the re-adding step raise
+   TaggingError (reproduced on /repo; DESIGN 13.5) *)
+Theorem C02_completion_needs_untagged_input : ~ Proofs.Completion.completion_statement.
+Proof. exact Proofs.Completion.completion_statement_refuted. Qed.
+Print Assumptions C02_completion_needs_untagged_input.
+
+(* non-vacuity: A(100,+) -10- B(300,-) -10- C(100,+), texel 3.5 bp, pieces
+   1-200 | 201-350 | 351-520 shown out of order, two of them reversed, in two
+   Pretext scaffolds; B spans all three pieces -- obtained by applying the theorem *)
+Theorem C02_completion_instance :
+  exists rs, remap_to_input repaired Proofs.Completion.ThreePieces.g10 (s "SUPER_") (7, 2)
+               Proofs.Completion.ThreePieces.input Proofs.Completion.ThreePieces.pretext = Ok rs.
+Proof. exact Proofs.Completion.three_piece_map_completes. Qed.
+Print Assumptions C02_completion_instance.
